@@ -650,7 +650,9 @@ class Performance(object):
 
     def __iter__(self) -> Iterator[PerformedPart]:
         self.iter_idx = 0
-        return self
+        # every iteration gets its own cursor, so that nested or interleaved
+        # iterations over the same performance do not disturb each other
+        return iter(self.performedparts)
 
     def __next__(self) -> PerformedPart:
         if self.iter_idx == len(self.performedparts):
